@@ -156,7 +156,7 @@ class MustFacts:
     at(b, i) -> set of facts holding immediately before element i of block b;
     out(b, succ_index) -> facts on that edge."""
 
-    def __init__(self, cfg, gen=rel_facts, kills=elem_kills, extra_gen=None, call_kills=None, closure=None):
+    def __init__(self, cfg, gen=rel_facts, kills=elem_kills, extra_gen=None, call_kills=None, closure=None, disjunctive=True):
         self.cfg = cfg
         self.gen = gen
         self.kills = kills
@@ -164,20 +164,78 @@ class MustFacts:
         self.call_kills = call_kills
         self.closure = closure if closure is not None else (default_closure if gen is rel_facts else None)
         self.IN = {}
+        self.disjunctive = disjunctive
         self._solve()
+
+    # ---- disjunctive facts -------------------------------------------------------------------------------------------
+    # A join keeps, besides the facts common to all incoming edges, one fact ("or", {alt_1, .., alt_n}): alt_i is what edge i
+    # knew beyond the common part.  A later branch that contradicts all alternatives but one re-establishes that one
+    # (`if (A && B) .. else if (A)` -> !B), whether or not the compiler split the condition into short-circuit blocks.
+    MAX_ALTS = 4
+    MAX_ALT_FACTS = 8
+
+    @staticmethod
+    def _plain(fs):
+        return {f for f in fs if f[0] != "or"}
+
+    def _kill(self, cur, ks):
+        out = set()
+        for f in cur:
+            if f[0] == "or":
+                alts = [frozenset(x for x in alt if not fact_killed(x, ks)) for alt in f[1]]
+                if all(alts):
+                    out.add(("or", frozenset(alts)))
+            elif not fact_killed(f, ks):
+                out.add(f)
+        return out
+
+    def _merge(self, sets):
+        if len(sets) == 1:
+            return set(sets[0])
+        plains = [self._plain(x) for x in sets]
+        common = set.intersection(*plains)
+        res = set(common)
+        res |= set.intersection(*[{f for f in x if f[0] == "or"} for x in sets])
+        if self.disjunctive:
+            alts = {frozenset(f for f in (p_ - common) if f[0] in ("lt", "le", "eq", "ne", "true", "false")) for p_ in plains}
+            if all(alts) and 2 <= len(alts) <= self.MAX_ALTS and max(len(a) for a in alts) <= self.MAX_ALT_FACTS:
+                res.add(("or", frozenset(alts)))
+        return res
+
+    def _resolve_ors(self, f):
+        """Drop alternatives contradicted by what holds; a single survivor holds.  Returns None when no alternative survives (infeasible)."""
+        changed = True
+        while changed:
+            changed = False
+            plain = self._plain(f)
+            for o in [x for x in f if x[0] == "or"]:
+                remaining = [alt for alt in o[1] if not any(contradicts(x, plain) for x in alt)]
+                if not remaining:
+                    return None
+                if len(remaining) == 1:
+                    f.discard(o)
+                    f |= set(remaining[0])
+                    changed = True
+                    break
+                if len(remaining) < len(o[1]):
+                    f.discard(o)
+                    f.add(("or", frozenset(remaining)))
+                    changed = True
+                    break
+        return f
 
     def _transfer(self, b, facts, record=None):
         blk = self.cfg.blocks[b]
         cur = set(facts)
         for i, e in enumerate(blk.elems):
             if record is not None:
-                record[(b, i)] = set(cur)
+                record[(b, i)] = self._plain(cur)
             x = e["x"]
             ks = self.kills(x)
             if self.call_kills:
                 ks |= self.call_kills(x)
             if ks:
-                cur = {f for f in cur if not fact_killed(f, ks)}
+                cur = self._kill(cur, ks)
             if self.extra_gen:
                 cur |= self.extra_gen(x)
         return cur
@@ -209,6 +267,9 @@ class MustFacts:
                 f |= g
             if self.closure:
                 f = self.closure(f)
+            f = self._resolve_ors(f)
+            if f is not None and self.closure:
+                f = self.closure(f)
             res.append(f)
         return res
 
@@ -219,23 +280,46 @@ class MustFacts:
         IN[cfg.entry] = set()
         work = [cfg.entry]
         edge_out = {}
+        preds = {b: [] for b in cfg.blocks}
+        for b, blk in cfg.blocks.items():
+            for si, s in enumerate(blk.succs):
+                if s is not None and si not in blk.dead:
+                    preds[s].append((b, si))
+        visits = {}
         while work:
             b = work.pop()
             if IN[b] is TOP:
                 continue
+            visits[b] = visits.get(b, 0) + 1
+            if visits[b] > 200:   # safety net: give up disjunctions rather than iterate for ever
+                self.disjunctive = False
             out = self._transfer(b, IN[b])
             efs = self._edge_facts(b, out)
             blk = cfg.blocks[b]
             for si, s in enumerate(blk.succs):
+                if s is None:
+                    continue
                 if efs[si] is None:
                     continue
-                edge_out[(b, si)] = efs[si]
-                new = efs[si] if IN[s] is TOP else (IN[s] & efs[si])
+                if edge_out.get((b, si)) == efs[si]:
+                    continue
+                # an edge's facts only ever shrink (plain part); keep the intersection with what it said before
+                prev = edge_out.get((b, si))
+                cur = efs[si] if prev is None else ({f for f in efs[si] if f[0] == "or" or f in prev})
+                edge_out[(b, si)] = cur
+                incoming = [edge_out[e] for e in preds[s] if e in edge_out]
+                if s == cfg.entry:
+                    incoming.append(set())
+                new = self._merge(incoming)
+                if IN[s] is not TOP:
+                    # monotone in the plain part
+                    new = {f for f in new if f[0] == "or" or f in IN[s]}
                 if IN[s] is TOP or new != IN[s]:
                     IN[s] = set(new)
                     work.append(s)
-        self.IN = IN
-        self.edge_out = edge_out
+        self.IN = {b: (None if v is None else self._plain(v)) for b, v in IN.items()}
+        self._IN_full = IN
+        self.edge_out = {k: self._plain(v) for k, v in edge_out.items()}
         self.before = {}
         for b in cfg.blocks:
             if IN[b] is not None:
